@@ -129,6 +129,9 @@ def depth_case(r, stream):
     contigs = {"c1": "".join(r.choice(BASES) for _ in range(L)), "c2": "".join(r.choice(BASES) for _ in range(60))}
     start = r.randint(25, 50)
     stop = start + r.randint(3, 30)
+    if stream == "edges":        # the region touches the first / last base of the contig (or is the whole contig)
+        u = r.random()
+        start, stop = (0, r.randint(1, 25)) if u < 0.45 else ((L - r.randint(1, 25), L) if u < 0.9 else (0, L))
     n_bam = r.choice([1, 1, 2, 3])
     hot = sorted(r.sample(range(start, stop), min(stop - start, r.randint(1, 4))))    # polymorphic positions
     alt = {p: r.choice([b for b in BASES if b != contigs["c1"][p]]) for p in hot}
@@ -191,6 +194,15 @@ def depth_case(r, stream):
                 a.flag |= SUPP
             elif stream == "secondary" and special:
                 a.flag |= SECONDARY
+            elif stream == "multiflag" and r.random() < 0.6:
+                # several configured exclusion flags at once: the record stays only if ALL of its flags are kept
+                bits = r.choice([(DUP, QCFAIL), (DUP, SUPP), (QCFAIL, SUPP), (DUP, QCFAIL, SUPP), (DUP,), (QCFAIL,), (SUPP,)])
+                for b_ in bits:
+                    a.flag |= b_
+                if r.random() < 0.3:
+                    a.mapq = r.choice([0, 19, 20, 21])
+            elif stream == "noqual" and r.random() < 0.5:
+                a.quals = None                      # SAM QUAL '*': no base can fail a base-quality test
             elif stream == "baseq":
                 a.quals = [r.randint(0, 12) if r.random() < 0.3 else q for q in a.quals]
                 if r.random() < 0.15:
@@ -257,7 +269,11 @@ def overlapping_pair_with_deletion(specs, contig, start, stop) -> bool:
 def cfg_grid(r, stream, n):
     out = []
     for _ in range(n):
-        minq = r.choice([0, 1, 20, 21, 30, 60]) if stream in ("mapq", "mixed") else r.choice([0, 20, 60])
+        minq = r.choice([0, 1, 20, 21, 30, 60]) if stream in ("mapq", "mixed", "multiflag") else r.choice([0, 20, 60])
+        if stream == "multiflag" and r.random() < 0.7:
+            keep = r.randrange(3)       # exactly one of the three exclusions is lifted
+            out.append((minq, keep != 0, keep != 1, keep != 2))
+            continue
         out.append((minq, r.random() < 0.5, r.random() < 0.5, r.random() < 0.5))
     return out
 
@@ -362,12 +378,26 @@ def compare_site(impl, model, tie_ok):
     return ""
 
 
-def gen_depth_tensor(r, n_samples, n_pos, th, zero_samples):
-    """depths with alleles exactly at, just below and just above the thresholds"""
+def gen_depth_tensor(r, n_samples, n_pos, th, zero_samples, ref_idx=None):
+    """depths with alleles exactly at, just below and just above the thresholds; with `ref_idx` (reference allele index per
+    position) some sites are fixed differences (every read carries one non-reference base) or sites where the reference has
+    a read or two and exactly one other allele has the rest"""
     maf, mad, imaf, imad, minind = th
     out = []
-    for _ in range(n_pos):
+    for p_ in range(n_pos):
         site = []
+        if ref_idx is not None and ref_idx[p_] >= 0 and r.random() < 0.12:
+            b_ = r.choice([a for a in range(4) if a != ref_idx[p_]])
+            few = r.random() < 0.5
+            for s in range(n_samples):
+                d = [0, 0, 0, 0]
+                if not (zero_samples and r.random() < 0.2):
+                    d[b_] = r.choice([4, 8, 10, 16, 20, 40])
+                    if few:
+                        d[ref_idx[p_]] = r.choice([0, 1, 1, 2])
+                site.append(d)
+            out.append(site)
+            continue
         kind = r.random()
         for s in range(n_samples):
             if zero_samples and r.random() < 0.3:
@@ -429,7 +459,8 @@ def run(tier, replay=None):
 
     try:
         # ------------------------------------------------------------ (1) depths, one stream per feature
-        streams = ["clean", "unmapped", "mapq", "dup", "qcfail", "supp", "secondary", "baseq", "orphans", "overlap"]
+        streams = ["clean", "unmapped", "mapq", "dup", "qcfail", "supp", "secondary", "baseq", "orphans", "overlap",
+                   "multiflag", "noqual", "edges"]
         for stream in streams:
             for i in range(per_stream):
                 contigs, start, stop, bams = depth_case(r, stream)
@@ -560,7 +591,8 @@ def run(tier, replay=None):
                 n_pos = r.randint(3, 10)
                 stop = min(400, start + n_pos)
                 n_pos = stop - start
-                tensor = gen_depth_tensor(r, n_samples, n_pos, th, zero_samples)
+                tensor = gen_depth_tensor(r, n_samples, n_pos, th, zero_samples,
+                                          [BASES.find(ref_contig[start + p].upper()) for p in range(n_pos)])
                 arr = np.array(tensor, dtype=np.int64).reshape(n_pos, n_samples, 4)
                 FS.bam_region_depths = lambda *a, _arr=arr, **k: _arr.copy()
                 buf = io.StringIO()
@@ -639,6 +671,9 @@ def run(tier, replay=None):
                             chk.violation("a position whose reference base is not A/C/G/T was emitted", pc,
                                           "C19/write_vcf_block/non-acgt-reference")
                         continue
+                    if not pr["meets"][pr["ref"]] and sum(pr["meets"]) == 1:
+                        chk.count("sites:REF-fails-and-exactly-one-ALT-passes" +
+                                  ("(fixed difference)" if all(d[pr["ref"]] == 0 for d in tensor[p]) else ""))
                     code_nan_maf = False
                     if th[0] > 0 and pr["zero_depth_sample"]:
                         # is the record what the pre-6204576 --maf test (np.mean over all samples) would give?
@@ -749,6 +784,10 @@ def run(tier, replay=None):
                 ctx.ask(line, cb)
             ctx.flush()
             shutil.rmtree(ds.dir, ignore_errors=True)
+        # ------------------------------------------------------------ (4) WP3: input shapes of the application glue
+        from . import wp3_c19 as W3
+        W3.maxdepth_stream(chk, C.rng(PROP + ":maxdepth"), work, tier, FS, report_deviation)
+        W3.cli_stream(chk, ctx, C.rng(PROP + ":cli2"), work, tier)
     finally:
         shutil.rmtree(work, ignore_errors=True)
     sigs = {}
